@@ -365,6 +365,12 @@ pub fn candidates(v: &V, well_formed: bool) -> Vec<V> {
 
 /// Greedy 1-minimisation. `fails(v)` must be deterministic.
 pub fn shrink(v: &V, well_formed: bool, fails: &dyn Fn(&V) -> bool) -> V {
+    // process-wide budget: a change that breaks (nearly) everything produces 10^5 failing values;
+    // the first 400 are minimised, the rest are reported as they are
+    static CALLS: std::sync::atomic::AtomicU64 = std::sync::atomic::AtomicU64::new(0);
+    if CALLS.fetch_add(1, std::sync::atomic::Ordering::Relaxed) > 400 {
+        return v.clone();
+    }
     let mut cur = v.clone();
     let mut budget = 20_000usize;
     'outer: loop {
